@@ -9,7 +9,10 @@ pub fn run(ctx: &Ctx, replay_file: Option<String>) -> ! {
         replay::<Case, _>(ctx, &f, |c, i, acc| replay_case::<Dual>("C01", c, i, acc));
     }
     let (kfull, kmax) = ctx.tier.pick((3, 3), (3, 4));
-    let (acc, bound) = explore_programs::<Dual>("C01", kfull, kmax, 2);
+    let (acc0, mut bound) = explore_programs::<Dual>("C01", kfull, kmax, 2);
+    let (acc1, bound1) = explore_magnitudes::<Dual>("C01", ctx.tier.pick(2, 3));
+    let acc = acc0.merge(acc1);
+    bound["second_value_table_magnitudes"] = bound1;
     let meta = Meta::exploration(
         "programs = breadth-first closure of {8 leaves incl. a zero-valued and a one-valued one} under 10 unary operators (neg, pow 2/3/-1/0.5, exp, log, \
          norm_cdf, inv_norm_cdf, abs) and + - * / in the kind mixes dual-dual, dual-float, float-dual; EVERY program \
@@ -22,7 +25,7 @@ pub fn run(ctx: &Ctx, replay_file: Option<String>) -> ! {
          operators and >= 2 distinct variable names in the result.",
         bound,
     )
-    .assume("derivative rules are exercised at the leaf-value table only (values 0.7, 1.3, -0.6, 2.1, 0.9 and what programs make of them)")
+    .assume("derivative rules are exercised at two leaf-value tables only: (0.7, 1.3, -0.6, 2.1, 0.9, 0, 1) to full depth and (1.5e6, 2.5e-6, -4e3, 7e-3, 3e5, 0, 1) to 2 (3) operators")
     .assume("RefDual reference model, itself cross-checked by finite differences on all <=2-operator programs")
     .assume("statrs normal cdf / inverse cdf are the 'plain' evaluation of those two functions");
     finish(ctx, acc, meta)
